@@ -178,3 +178,22 @@ func VerifSELF_Violation() {
 	verif.Assert(x != 77, "expected-violation x==77")
 	verif.Cover("end")
 }
+
+// VerifSELF_BoolKeyMap: composite map literal keyed by bool, indexed by a symbolic / forked bool.
+func VerifSELF_BoolKeyMap() {
+	b := verif.Choose("b", 2) == 1
+	got := map[bool]string{true: "T", false: "F"}[b]
+	want := "F"
+	if b {
+		want = "T"
+	}
+	verif.Assert(got == want, "bool-keyed map literal lookup")
+	sb := verif.Bool("sb")
+	got2 := map[bool]int{true: 1, false: 2}[sb]
+	want2 := 2
+	if sb {
+		want2 = 1
+	}
+	verif.Assert(got2 == want2, "bool-keyed map literal lookup (symbolic key)")
+	verif.Cover("end")
+}
